@@ -125,10 +125,10 @@ theorem fw_dynCall {tr m : String} {ty : Ty} {recv : Expr} {args : List Expr} (h
     (fun n _ _ _ h => (dyn_tgt (decImm_c_atom recv n) (decList_cs_atoms args _)).2 h)
 
 theorem fw_bin_plain {op : BinOp} {ty : Ty} {l r : Expr}
-    (hc : ((op == .and || op == .or) && !isAtom r) = false) (hL : FWL P [l, r]) : FW P (.bin op ty l r) := by
+    (hc : ((op == .and || op == .or) && !trivialRhs r) = false) (hL : FWL P [l, r]) : FW P (.bin op ty l r) := by
   have hcase : isAtom r = true ∨ (op ≠ .and ∧ op ≠ .or) := by
     cases hr : isAtom r
-    · right; rw [hr] at hc
+    · right; rw [trivialRhs_eq_isAtom, hr] at hc
       cases op <;> first | exact ⟨by decide, by decide⟩ | (exfalso; revert hc; decide)
     · left; rfl
   refine fw_ops P (mk := fun cs => match cs with | [li, ri] => .bin op ty li ri | _ => .prim .unit)
@@ -252,7 +252,7 @@ theorem fw_while {c b : Expr} (hc : FW P c) (hb : FW P b) : FW P (.while c b) :=
 
 /-- `a && b` / `a || b` with a complex right operand: lowered to `if` -/
 theorem fw_bin_lowered {op : BinOp} {ty : Ty} {l r : Expr}
-    (hc : ((op == .and || op == .or) && !isAtom r) = true) (hl : FW P l) (hr : FW P r) :
+    (hc : ((op == .and || op == .or) && !trivialRhs r) = true) (hl : FW P l) (hr : FW P r) :
     FW P (.bin op ty l r) := by
   intro n N D ρ ρ' w x hy ha hev hs
   have hf := hy.frag
@@ -455,7 +455,7 @@ theorem fw : ∀ (e : Expr), FW P e
   | .cget c idx ty e => fw_cget P (fw e)
   | .un op ty e => fw_un P (fw e)
   | .bin op ty l r => by
-    cases hc : ((op == .and || op == .or) && !isAtom r)
+    cases hc : ((op == .and || op == .or) && !trivialRhs r)
     · exact fw_bin_plain P hc (fwL_cons P (fw_imm P (fw l)) (fwL_cons P (fw_imm P (fw r)) (fwL_nil P)))
     · exact fw_bin_lowered P hc (fw l) (fw r)
   | .call ty f args => fw_call P (fwL_cons P (fw_imm P (fw f)) (fwL args))
